@@ -27,7 +27,7 @@ RULE = (
 )
 ASSUMPTIONS = [
     "shard boundaries are modelled by FSDPParameterMetadata(shape, numel, start_idx, end_idx); the flat-parameter rule (even chunks of the concatenated, padded flat parameter) generates the chunkings",
-    "real torch FSDP wrapping is not used to produce the metadata in this check (conformance of compile_fsdp_parameter_metadata is outside this property's anchors); transport model as in C06",
+    "conformance of the boundary model: real FSDP(use_orig_params=True) modules are wrapped on simulated ranks, compile_fsdp_parameter_metadata must describe the local shards exactly and cover every element once; transport model as in C06",
 ]
 TRUSTED = ["mc.props.c15 (DP reference validates the recovered pieces)", "mc.sim", "serial optimizer as oracle"]
 EXHAUSTIVE = True
@@ -78,6 +78,8 @@ def work(tier, seed):
         mid = mid[seed % 3 :: 3]
     for ch in common.chunks(mid, max(1, len(mid) // 24)):
         units.append({"kind": "fsdp_chunks", "shapes": ch, "seed": seed})
+    for layers in REAL_MODELS:
+        units.append({"kind": "real_fsdp", "layers": layers, "Ws": [2, 3] if tier == "quick" else [1, 2, 3, 4, 5], "seed": seed})
     units += hsdp_units(tier, seed)
     return units
 
@@ -197,6 +199,136 @@ def run_fsdp_unit(unit):
     res["samples"].append({"kind": unit["kind"], "shape": unit["shapes"][0], "example_range": [1, prod(unit["shapes"][0])]})
     res["states"] = list(res["states"])
     res["outcomes"] = list(res["outcomes"])
+    return res
+
+
+# ----------------------------------------------------------------------------- real torch FSDP modules (metadata conformance)
+
+REAL_MODELS = [
+    [(2, 2, False), (2, 3, False)],           # 4 + 6 elements: with 2 ranks a shard ends one element into the 2nd parameter
+    [(3, 2, True), (2, 1, True)],            # weights and biases, odd sizes
+    [(1, 5, False), (5, 1, True), (1, 2, False)],
+    [(4, 3, True)],
+]
+
+
+def real_fsdp_program(layers, cfg_kw, hist, seed):
+    def fn(rank, W):
+        import torch
+        import torch.nn as nn
+        from distributed_shampoo.distributed_shampoo import DistributedShampoo
+        from distributed_shampoo.shampoo_types import FSDPShampooConfig
+        from distributed_shampoo.utils.shampoo_fsdp_distributor import FSDPDistributor
+        from distributed_shampoo.utils.shampoo_fsdp_utils import compile_fsdp_parameter_metadata
+        from torch.distributed.fsdp import FullyShardedDataParallel as FSDP
+
+        mods = [nn.Linear(i, o, bias=b) for (i, o, b) in layers]
+        model = nn.Sequential(*mods)
+        fulls = {}
+        with torch.no_grad():
+            for pi, (name, p) in enumerate(model.named_parameters()):
+                v = torch.tensor(seq.init_param(pi, tuple(p.shape), seed), dtype=torch.float32).reshape(p.shape)
+                p.copy_(v)
+                fulls[name] = (pi, v.clone())
+        fsdp = FSDP(model, use_orig_params=True, device_id=torch.device("cpu"))
+        meta = compile_fsdp_parameter_metadata(fsdp)
+        msgs = []
+        info = {}
+        params = list(meta.keys())
+        for p, md in meta.items():
+            info[md.fqn] = (md.start_idx, md.end_idx, int(md.numel), int(p.numel()), tuple(md.shape))
+            if p.numel() != md.end_idx - md.start_idx:
+                msgs.append(f"metadata of {md.fqn}: local shard has {p.numel()} elements but [start_idx, end_idx) = [{md.start_idx}, {md.end_idx})")
+            pi, full = fulls[md.fqn]
+            if tuple(md.shape) != tuple(full.shape) or md.numel != full.numel():
+                msgs.append(f"metadata of {md.fqn}: shape {tuple(md.shape)} / numel {md.numel}, the parameter has {tuple(full.shape)}")
+            elif p.numel() and not torch.equal(p.detach(), full.reshape(-1)[md.start_idx : md.end_idx]):
+                msgs.append(f"metadata of {md.fqn}: [start_idx, end_idx) does not address the elements held by the local shard")
+        if msgs:
+            return {"msgs": msgs, "info": info}
+        cfg = seq.cfg_with(shapes=[[1]], max_dim=3, merge=True, seed=seed, **cfg_kw)
+        kw = seq.ctor_kwargs(cfg)
+        opt = DistributedShampoo(params, distributed_config=FSDPShampooConfig(param_to_metadata=meta), **kw)
+        # serial twin on the recovered sub-tensors
+        tparams, owner = [], []
+        for p, md in meta.items():
+            if p.numel() == 0:
+                continue
+            n = md.numel
+            probe = torch.arange(n, dtype=torch.float32)[md.start_idx : md.end_idx]
+            pos = 0
+            for t in FSDPDistributor._split_tensor_block_recovery(probe, md.shape, md.start_idx, md.end_idx):
+                tparams.append(torch.nn.Parameter(p.detach()[pos : pos + t.numel()].reshape(t.shape).clone()))
+                owner.append((md.fqn, pos, pos + t.numel(), tuple(t.shape)))
+                pos += t.numel()
+        tw = DistributedShampoo(tparams, **kw)
+        for t, mask in enumerate(hist):
+            for p, md in meta.items():
+                pi, full = fulls[md.fqn]
+                g = torch.tensor(seq.grad_value(pi, t, tuple(full.shape), seed), dtype=torch.float32).reshape(-1)[md.start_idx : md.end_idx].clone()
+                p.grad = g if mask[pi % len(mask)] else None
+            for (fqn, x, y, shp), tp in zip(owner, tparams):
+                pi, full = fulls[fqn]
+                md = next(m for m in meta.values() if m.fqn == fqn)
+                g = torch.tensor(seq.grad_value(pi, t, tuple(full.shape), seed), dtype=torch.float32).reshape(-1)[md.start_idx : md.end_idx]
+                tp.grad = g[x:y].reshape(shp).clone() if mask[pi % len(mask)] else None
+            opt.step()
+            tw.step()
+            for p, md in meta.items():
+                if p.numel() == 0:
+                    continue
+                want = torch.cat([tp.detach().reshape(-1) for (fqn, _, _, _), tp in zip(owner, tparams) if fqn == md.fqn])
+                if not torch.equal(p.detach(), want):
+                    err = (p.detach() - want).abs().max().item() / max(want.abs().max().item(), 1e-30)
+                    if err > 16 * common.UNIT["f32"]:
+                        msgs.append(f"step {t} mask {mask}: shard of {md.fqn} differs from the serial optimizer on its recovered sub-tensors (rel diff {err:.2e})")
+            if msgs:
+                break
+        return {"msgs": msgs, "info": info}
+
+    return fn
+
+
+def run_real_fsdp(unit):
+    res = {"evals": 0, "transitions": 0, "states": set(), "outcomes": set(), "nontrivial_count": 0, "violations": [], "samples": [], "stats": {"real_fsdp_runs": 0}}
+    hists = [[[1, 1], [1, 1]], [[1, 0], [1, 1]], [[0, 1], [1, 0]]]
+    for W in unit["Ws"]:
+        for hi, hist in enumerate(hists):
+            ckw = opt_cfgs()[(hi + W) % 4]
+            s = sim.Sched(W).run(real_fsdp_program(unit["layers"], ckw, hist, unit["seed"]))
+            what = f"real FSDP(use_orig_params=True) layers={unit['layers']} world={W} hist={hist}"
+            msgs = []
+            if s.deadlock is not None:
+                msgs.append(f"{what}: DEADLOCK {s.deadlock}")
+            for r, e in enumerate(s.errors):
+                if e:
+                    msgs.append(f"{what}: rank {r} raised {e.splitlines()[0][:200]}")
+            if not msgs:
+                for r in range(W):
+                    msgs += [f"{what}: rank {r}: {m}" for m in s.results[r]["msgs"][:1]]
+                # across the shard ranks every element of every parameter is covered exactly once
+                for fqn in s.results[0]["info"]:
+                    numel = s.results[0]["info"][fqn][2]
+                    spans = sorted((s.results[r]["info"][fqn][0], s.results[r]["info"][fqn][1]) for r in range(W) if s.results[r]["info"][fqn][1] > s.results[r]["info"][fqn][0])
+                    pos = 0
+                    for a, b in spans:
+                        if a != pos:
+                            msgs.append(f"{what}: metadata ranges of {fqn} over the ranks are {spans}: element {pos} is covered {'twice' if a < pos else 'by no rank'}")
+                            break
+                        pos = b
+                    else:
+                        if pos != numel:
+                            msgs.append(f"{what}: metadata ranges of {fqn} over the ranks are {spans}: they end at {pos}, the parameter has {numel} elements")
+            res["evals"] += 1
+            res["transitions"] += len(s.points)
+            res["stats"]["real_fsdp_runs"] += 1
+            res["nontrivial_count"] += 1
+            res["states"].add(common.h64(what))
+            if msgs:
+                res["violations"].append({"case": {"kind": "real_fsdp", "layers": unit["layers"], "Ws": [W], "seed": unit["seed"]}, "msg": msgs[0][:500], "kind": "real" + msgs[0].split(":")[-1][:20]})
+    res["samples"].append({"kind": "real_fsdp", "layers": unit["layers"], "worlds": unit["Ws"]})
+    res["states"] = list(res["states"])
+    res["outcomes"] = []
     return res
 
 
@@ -381,6 +513,8 @@ def run_hsdp_case(unit, hist, choices=(), bound=None):
 
 
 def run_unit(unit):
+    if unit["kind"] == "real_fsdp":
+        return run_real_fsdp(unit)
     if unit["kind"].startswith("fsdp"):
         return run_fsdp_unit(unit)
     res = {"evals": 0, "transitions": 0, "states": set(), "outcomes": set(), "nontrivial_count": 0, "violations": [], "samples": [], "stats": {"hsdp_runs": 0, "hsdp_schedules": 0}}
@@ -410,6 +544,9 @@ def run_unit(unit):
 def replay(case):
     import torch
 
+    if case["kind"] == "real_fsdp":
+        r = run_real_fsdp(case)
+        return [v["msg"] for v in r.get("violations", [])] if "harness_error" not in r else [r["harness_error"]]
     if case["kind"] == "fsdp":
         out = []
 
